@@ -58,6 +58,7 @@ Vocab == <<
     L("**", TRUE, FALSE, FALSE, FALSE, FALSE, FALSE), L("f(*x)", FALSE, FALSE, FALSE, TRUE, FALSE, FALSE),
     (* underscores: runs inside a word can neither open nor close; a run at the start of a word could open (so at most one such lexeme,
        counted with the attached stars), and there is nothing in the vocabulary that could close it *)
+    In("=-="), In("-="), In("=-"),           \* no setext underline (mixed characters), no list marker (no space), no thematic break
     In("some__thing"), In("my__double__underscore"), In("a__b"),
     L("__foo__bar", FALSE, FALSE, FALSE, TRUE, FALSE, FALSE), L("__init__py", FALSE, FALSE, FALSE, TRUE, FALSE, FALSE), L("_private", FALSE, FALSE, FALSE, TRUE, FALSE, FALSE),
     L("\\", FALSE, TRUE, FALSE, FALSE, FALSE, FALSE), L("a\\", FALSE, TRUE, FALSE, FALSE, FALSE, FALSE), In("\\a"), In("\\n")
